@@ -1,3 +1,3 @@
 From Coq Require Import ExtrOcamlBasic.
-From ChibiV Require Import Common.ExtractBase C19.Prims C19.Base64 C19.IntCodec C19.Json C19.QP C19.Uri.
-Extraction "model.ml" ext_base b64_encode b64_decode encode_int decode_int bv_ref bv_set json_read jwrite utf8_val qp_loop MAXCOL SEP qp_encode qp_decode uri_encode uri_dec.
+From ChibiV Require Import Common.ExtractBase C19.Prims C19.Base64 C19.Base64Stream C19.IntCodec C19.Json C19.QP C19.Uri.
+Extraction "model.ml" ext_base b64_encode b64_decode b64_stream_decode b64_stream_encode b64_header encode_int decode_int bv_ref bv_set json_read jwrite utf8_val qp_loop MAXCOL SEP qp_encode qp_decode qp_dec uri_encode uri_dec.
